@@ -34,7 +34,7 @@ pub struct Location { pub max_cut: u64, pub segment: u64 }
 pub struct PolicyId { pub id: u64 }
 pub enum StorageError { EmptyPerspective, Bug, Other }
 pub enum PolicyError { Rejected, Other }
-pub enum ClientError { NoSuchParent(CmdId), Storage, Policy, PolicyStore, Bug }
+pub enum ClientError { NoSuchParent(CmdId), Storage, Policy, PolicyStore, Bug, ConcurrentTransaction }
 pub trait BugExt<T>: Sized {
     spec fn as_opt(&self) -> Option<T>;
     fn assume(self, msg: &'static str) -> (r: Result<T, ClientError>)
@@ -68,20 +68,59 @@ impl Perspective {
         ensures r is Ok ==> final(self).cmds@ == old(self).cmds@.push(command.cid), r is Err ==> final(self).cmds@ == old(self).cmds@ && r->Err_0 is Storage,
     { unimplemented!() }
 }
+#[derive(Copy, Clone, PartialEq, Eq, Structural)]
+pub struct HeadSetOffset { pub v: u64 }
+#[derive(Copy, Clone)]
+pub struct LocatedAddress { pub id: CmdId, pub segment: u64, pub max_cut: u64 }
+impl LocatedAddress { pub fn location(self) -> Location { Location { max_cut: self.max_cut, segment: self.segment } } }
+/// HeadSet (sorted, duplicate-free: unit c09_head_set); here only which ids it holds
+pub struct HeadSet { pub v: Vec<LocatedAddress> }
+impl HeadSet {
+    pub uninterp spec fn ids(&self) -> Set<CmdId>;
+    #[verifier::external_body]
+    pub fn default() -> (r: Self) ensures r.ids() =~= Set::<CmdId>::empty() { unimplemented!() }
+    /// HeadSet::push contract proved in unit c09_head_set (membership grows by exactly the pushed head)
+    #[verifier::external_body]
+    pub fn push(&mut self, head: LocatedAddress) ensures final(self).ids() =~= old(self).ids().insert(head.id) { unimplemented!() }
+}
+/// R14 helper: `head_set.iter().map(LocatedAddress::location).collect()`
+#[verifier::external_body]
+fn head_locations(hs: &HeadSet) -> (r: Vec<Location>) ensures (exists|c: CmdId| hs.ids().contains(c)) ==> r@.len() > 0 { unimplemented!() }
+/// R14 helper: the entries of the tips map, as `for (id, loc) in &self.heads` visits them
+#[verifier::external_body]
+fn tip_entries(m: &BTreeMap<CmdId, Location>) -> (r: Vec<(CmdId, Location)>)
+    ensures forall|i: int| 0 <= i < r@.len() ==> m@.contains_key((#[trigger] r@[i]).0),
+        forall|k: CmdId| #[trigger] m@.contains_key(k) ==> exists|i: int| 0 <= i < r@.len() && (#[trigger] r@[i]).0 == k,
+{ unimplemented!() }
 pub struct Segment { pub head: Ghost<CmdId> }
 impl Segment {
+    #[verifier::external_body] pub fn facts(&self) -> (r: Result<FactIndex, ClientError>) ensures r is Err ==> r->Err_0 is Storage { unimplemented!() }
+    #[verifier::external_body] pub fn policy(&self) -> PolicyId { unimplemented!() }
     #[verifier::external_body] pub fn head_id(&self) -> (r: CmdId) ensures r == self.head@ { unimplemented!() }
     #[verifier::external_body] pub fn head_location(&self) -> (r: Result<Location, ClientError>) ensures r is Err ==> r->Err_0 is Storage { unimplemented!() }
 }
-pub struct Storage { pub _p: () }
+/// the storage: only what `commit` is specified against — the committed head ids and the head-set stamp
+pub struct Storage { pub heads: Ghost<Set<CmdId>>, pub stamp: Ghost<u64> }
 impl Storage {
+    #[verifier::external_body]
+    pub fn heads_offset(&self) -> (r: Result<HeadSetOffset, ClientError>) ensures r is Ok ==> r->Ok_0.v == self.stamp@, r is Err ==> r->Err_0 is Storage { unimplemented!() }
+    /// Storage::commit_heads: replaces the committed head set and moves the stamp (C19 unit for LinearStorage); all or nothing
+    #[verifier::external_body]
+    pub fn commit_heads(&mut self, hs: HeadSet, fc: FactIndex) -> (r: Result<(), ClientError>)
+        ensures r is Ok ==> final(self).heads@ == hs.ids() && final(self).stamp@ != old(self).stamp@,
+            r is Err ==> final(self).heads@ == old(self).heads@ && final(self).stamp@ == old(self).stamp@ && r->Err_0 is Storage,
+    { unimplemented!() }
+    #[verifier::external_body]
+    pub fn get_segment(&self, l: Location) -> (r: Result<Segment, ClientError>) ensures r is Err ==> r->Err_0 is Storage { unimplemented!() }
     /// Storage::write: refuses an empty perspective (LinearStorage: StorageError::EmptyPerspective); the segment's head is the last command
     #[verifier::external_body]
     pub fn write(&mut self, p: Perspective) -> (r: Result<Segment, ClientError>)
         ensures p.cmds@.len() == 0 ==> r is Err, r is Ok ==> r->Ok_0.head@ == p.cmds@.last(), r is Err ==> r->Err_0 is Storage,
+            // writing a segment does not commit anything
+            final(self).heads@ == old(self).heads@, final(self).stamp@ == old(self).stamp@,
     { unimplemented!() }
     #[verifier::external_body]
-    pub fn get_linear_perspective(&mut self, loc: Location) -> (r: Result<Perspective, ClientError>) ensures r is Ok ==> r->Ok_0.cmds@.len() == 0, r is Err ==> r->Err_0 is Storage { unimplemented!() }
+    pub fn get_linear_perspective(&mut self, loc: Location) -> (r: Result<Perspective, ClientError>) ensures r is Ok ==> r->Ok_0.cmds@.len() == 0, r is Err ==> r->Err_0 is Storage, final(self).heads@ == old(self).heads@, final(self).stamp@ == old(self).stamp@ { unimplemented!() }
 }
 pub struct Policy { pub _p: () }
 impl Policy {
@@ -97,7 +136,19 @@ impl PolicyStore {
     #[verifier::external_body] pub fn get_policy(&self, id: PolicyId) -> (r: Result<&Policy, ClientError>) ensures r is Err ==> r->Err_0 == ClientError::PolicyStore { unimplemented!() }
 }
 pub struct TraversalBuffer { pub _p: () }
+#[derive(Copy, Clone)]
+pub struct GraphId { pub id: u64 }
+pub struct Provider { pub storage: Storage }
+impl Provider {
+    #[verifier::external_body]
+    pub fn get_storage(&mut self, g: GraphId) -> (r: Result<&mut Storage, ClientError>)
+        ensures r is Ok ==> *r->Ok_0 == old(self).storage && final(self).storage == *final(r->Ok_0),
+            r is Err ==> final(self).storage == old(self).storage && r->Err_0 is Storage,
+    { unimplemented!() }
+}
 pub struct Transaction {
+    pub graph_id: GraphId,
+    pub original_heads_offset: Option<HeadSetOffset>,
     pub perspective: Option<Perspective>,
     pub phead: Option<CmdId>,
     pub heads: BTreeMap<CmdId, Location>,
@@ -129,7 +180,7 @@ fn choose_policy<'a>(storage: &Storage, policy_store: &'a PolicyStore, left: Loc
 #[verifier::external_body]
 fn evaluate_braid(storage: &mut Storage, heads: &[Location], sink: &mut Sink, policy: &Policy, traversal: &mut TraversalBuffer, braid_buf: &mut BraidBuffer, make_spill: &MakeSpill)
     -> (r: Result<(FactIndex, Location), ClientError>)
-    ensures r is Err ==> r->Err_0 is Storage
+    ensures r is Err ==> r->Err_0 is Storage, final(storage).heads@ == old(storage).heads@, final(storage).stamp@ == old(storage).stamp@,
 { unimplemented!() }
 impl Storage {
     #[verifier::external_body]
@@ -151,6 +202,8 @@ FLUSH = FnSpec(FILE, 'flush', IMPL,
         ensures
             r is Ok ==> final(self).perspective is None && final(self).phead is None && final(self).tips() =~= old(self).tips(),
             final(self).wf(),
+            final(storage).heads@ == old(storage).heads@, final(storage).stamp@ == old(storage).stamp@, r is Err ==> r->Err_0 is Storage,
+            final(self).original_heads_offset == old(self).original_heads_offset,
 """)
 
 GET_P = FnSpec(FILE, 'get_perspective', IMPL, attrs='#[verifier::spinoff_prover]',
@@ -212,6 +265,55 @@ ADD_MERGE = FnSpec(FILE, 'add_merge', IMPL, attrs='#[verifier::spinoff_prover]',
             r is Ok ==> final(self).wf() && final(self).tips() =~= old(self).tips().remove(lr.0.id).remove(lr.1.id).insert(command.cid),
 """)
 
+COMMIT = FnSpec(FILE, 'commit', IMPL, attrs='#[verifier::spinoff_prover]',
+    sig_rewrites=[('fn commit<F, MS>(', 'fn commit(', 1, 'R6'),
+                  ('mut self,', '&mut self,', 1, 'R27 (`mut self` by value -> `&mut self`: the real function consumes the transaction, so no caller observes the difference)'),
+                  ('provider: &mut SP', 'provider: &mut Provider', 1, 'R6'),
+                  ('policy_store: &mut PS', 'policy_store: &mut PolicyStore', 1, 'R6'),
+                  ('sink: &mut impl Sink<PS::Effect>', 'sink: &mut Sink', 1, 'R6'),
+                  ('buffers: &mut RuntimeBuffers<SP::Segment>', 'buffers: &mut RuntimeBuffers', 1, 'R6'),
+                  ('make_spill: &MS', 'make_spill: &MakeSpill', 1, 'R6'),
+                  ("""where
+        F: Spill,
+        MS: Fn() -> Result<F, StorageError>,""", '', 1, 'R6')],
+    rewrites=[
+        ('evaluate_braid::<_, PS, F, MS>(', 'evaluate_braid(', 1, 'R6 (turbofish on the abstract braid)'),
+        ('for (id, loc) in &self.heads {', """let entries = tip_entries(&self.heads);
+        for i in 0..entries.len()
+            invariant
+                forall|j: int| 0 <= j < entries@.len() ==> self.heads@.contains_key((#[trigger] entries@[j]).0),
+                forall|c: CmdId| #![trigger head_set.ids().contains(c)] head_set.ids().contains(c) <==> exists|j: int| 0 <= j < i && (#[trigger] entries@[j]).0 == c,
+        {
+            let (id, loc) = (&entries[i].0, &entries[i].1);""", 1, 'R14'),
+        ('let head_locs: Vec<Location> = head_set.iter().map(LocatedAddress::location).collect();', 'let head_locs: Vec<Location> = head_locations(&head_set);', 1, 'R14'),
+    ],
+    inserts=[
+        ('before', 'let head_locs: Vec<Location> = head_locations(&head_set);', """proof {
+            // the tips map is not empty, so the head set holds at least one id
+            assert(self.heads@.len() != 0);
+            assert(exists|k: CmdId| self.heads@.contains_key(k)) by {
+                if forall|k: CmdId| !self.heads@.contains_key(k) { assert(self.heads@.dom() =~= Set::<CmdId>::empty()); }
+            }
+            let k0 = choose|k: CmdId| self.heads@.contains_key(k);
+            assert(head_set.ids().contains(k0));
+        }"""),
+    ],
+    contract="""
+        requires old(self).wf(),
+        ensures
+            // never captured the heads: nothing to commit, nothing touched
+            old(self).original_heads_offset is None ==> (r is Ok ==> r == Ok::<bool, ClientError>(false)) && final(provider).storage.heads@ == old(provider).storage.heads@,
+            // someone else committed since the heads were read: refused before anything is written
+            old(self).original_heads_offset is Some && old(self).original_heads_offset->Some_0.v != old(provider).storage.stamp@
+                ==> r is Err && final(provider).storage.heads@ == old(provider).storage.heads@ && final(provider).storage.stamp@ == old(provider).storage.stamp@,
+            r matches Err(ClientError::ConcurrentTransaction) ==> old(self).original_heads_offset is Some && old(self).original_heads_offset->Some_0.v != old(provider).storage.stamp@,
+            // success: the committed head set is exactly the transaction's tips, and the stamp moved
+            r == Ok::<bool, ClientError>(true) ==> final(provider).storage.heads@ =~= old(self).tips() && final(provider).storage.stamp@ != old(provider).storage.stamp@
+                && old(self).original_heads_offset == Some(HeadSetOffset { v: old(provider).storage.stamp@ }),
+            // otherwise the committed head set is what it was
+            r != Ok::<bool, ClientError>(true) ==> final(provider).storage.heads@ == old(provider).storage.heads@ && final(provider).storage.stamp@ == old(provider).storage.stamp@,
+""")
+
 
 def build():
-    return build_unit(PRELUDE, [('impl Transaction', [FLUSH, GET_P, ADD_SINGLE, ADD_MERGE])])
+    return build_unit(PRELUDE, [('impl Transaction', [FLUSH, GET_P, ADD_SINGLE, ADD_MERGE, COMMIT])])
